@@ -57,7 +57,9 @@ func (e *Engine) checkDeterministic(fn *ssa.Function) []string {
 					}
 					callee := c.StaticCallee()
 					if callee == nil {
-						bad = append(bad, "calls an unknown function value "+e.posOf(in.Pos()))
+						if !funcValueOK(c.Value, 0) {
+							bad = append(bad, "calls an unknown function value "+e.posOf(in.Pos()))
+						}
 						continue
 					}
 					name := callee.String()
